@@ -11,6 +11,7 @@ import AspireModel.Model.Wiring
 import AspireModel.Model.Transforms
 import AspireModel.Model.Session
 import AspireModel.Model.Dtype
+import AspireModel.Model.Codec
 import AspireModel.ErfFloat
 /-
   Pure part of the line-protocol driver: one request line in, one reply line out.
@@ -508,6 +509,67 @@ def opConv : P String := do
   | .ok o => pure s!"{flags} ok {nsName o.ns} {wName o.w} {outB o.fieldsKept}"
   | .error _ => pure s!"{flags} typeerror"
 
+
+/-! ### HDF5 codec (C13): `codec <tree>` saves a top-level dictionary and loads it back -/
+def hexStr : P Str := do
+  let t ← tok
+  if t = "-" then pure [] else
+  let rec go (cs : List Char) (acc : List Char) : Option (List Char) :=
+    match cs with
+    | [] => some acc.reverse
+    | a :: b :: rest =>
+      match hexDigit a, hexDigit b with
+      | some x, some y => go rest (Char.ofNat (x * 16 + y) :: acc)
+      | _, _ => none
+    | _ => none
+  match go t.toList [] with
+  | some s => pure s
+  | none => throw s!"bad hex string {t}"
+
+def strHex (s : Str) : String :=
+  if s.isEmpty then "-" else
+  String.join (s.map fun c => let n := c.toNat; String.ofList [Nat.digitChar (n / 16), Nat.digitChar (n % 16)])
+
+partial def parseVal : P Val := do
+  match (← tok) with
+  | "D" => do
+    let es ← listOf (do let k ← hexStr; let v ← parseVal; pure (k, v))
+    pure (.dict es)
+  | "L" => do
+    match (← tok) with
+    | "none" => pure (.leaf .none)
+    | "empty" => pure (.leaf .emptyDict)
+    | "bool" => do pure (.leaf (.bool (← bool)))
+    | "int" => do pure (.leaf (.int (← int)))
+    | "num" => do
+      let t ← tok
+      match parseHex t with | some n => pure (.leaf (.num n)) | none => throw "bad num"
+    | "str" => do pure (.leaf (.str (← hexStr)))
+    | "strs" => do pure (.leaf (.strs (← listOf hexStr)))
+    | "nums" => do
+      let l ← listOf (do let t ← tok; match parseHex t with | some n => pure n | none => throw "bad num")
+      pure (.leaf (.nums l))
+    | t => throw s!"bad leaf {t}"
+  | t => throw s!"bad value {t}"
+
+def outLeaf : Leaf → String
+  | .none => "L none" | .emptyDict => "L empty"
+  | .bool b => "L bool " ++ outB b | .int i => s!"L int {i}"
+  | .num x => "L num " ++ toHex16 x | .str s => "L str " ++ strHex s
+  | .strs l => " ".intercalate (["L strs", toString l.length] ++ l.map strHex)
+  | .nums l => " ".intercalate (["L nums", toString l.length] ++ l.map toHex16)
+
+partial def outVal : Val → String
+  | .leaf l => outLeaf l
+  | .dict es =>
+    let sorted := es.toArray.qsort (fun a b => strHex a.1 < strHex b.1) |>.toList
+    " ".intercalate (["D", toString es.length] ++ sorted.map fun e => strHex e.1 ++ " " ++ outVal e.2)
+
+def opCodec : P String := do
+  match (← parseVal) with
+  | .dict es => pure (outVal (.dict (loadDict (saveDict es))))
+  | .leaf _ => throw "top level must be a dictionary"
+
 def dispatch (op : String) : P String :=
   match op with
   | "weights" => opWeights (α := α)
@@ -535,6 +597,7 @@ def dispatch (op : String) : P String :=
   | "tfm" => opTfm (α := α)
   | "session" => opSession
   | "conv" => opConv
+  | "codec" => opCodec
   | _ => throw s!"unknown op {op}"
 
 end Driver
